@@ -164,9 +164,11 @@ impl AggregateExecutionEngine {
                     let group_value = self.get_group_value(group_key.clone(), aggregate_index, || Ok(column_value.clone()))?;
 
                     // By the value order of the argument's type (also TEXT, TIMESTAMP, BOOLEAN), not only for numeric types
+                    // (among values that compare as equal - 1 and 1.0 - the same one is kept whatever the order of the lines)
+                    let ordering = column_value.compare(group_value).map(|ordering| ordering.then_with(|| column_value.compare_representation(group_value)));
                     let replace = match aggregate {
-                        Aggregate::Min(_) => group_value.is_null() || column_value.compare(group_value) == Some(std::cmp::Ordering::Less),
-                        Aggregate::Max(_) => group_value.is_null() || column_value.compare(group_value) == Some(std::cmp::Ordering::Greater),
+                        Aggregate::Min(_) => group_value.is_null() || ordering == Some(std::cmp::Ordering::Less),
+                        Aggregate::Max(_) => group_value.is_null() || ordering == Some(std::cmp::Ordering::Greater),
                         _ => { unimplemented!(); }
                     };
 
@@ -604,7 +606,8 @@ impl GroupAggregator {
             GroupAggregator::Average { .. } => Ok(None),
             GroupAggregator::StandardDeviation { .. } => Ok(None),
             GroupAggregator::Percentile { values, percentile } => {
-                values.sort();
+                // (values that compare as equal - 1 and 1.0 - in a fixed order, whatever the order of the lines)
+                values.sort_by(|x, y| x.cmp(y).then_with(|| x.compare_representation(y)));
                 // p = 1.0 is the largest value, not one past it
                 let index = ((*percentile * values.len() as f64) as usize).min(values.len().saturating_sub(1));
                 Ok(values.get(index).cloned())
